@@ -189,7 +189,10 @@ class Relay(W.NetPolicy):
         if self.rewrite_id:
             old = self.idmap.get((dg.dst, m.id))
             if old is None:
-                return []
+                # an answer for somebody whose query did not come through this relay (the scripted peers of `occupy` /
+                # `prior` talk to the server directly) is not this relay's to rewrite; an unknown id for one of the
+                # relay's own clients is dropped
+                return [] if dg.dst[0].startswith("10.9.1.") else [(dg.data, dg.src, dg.dst)]
             m.id = old
         data = serialize(m)
         return [(data, dg.src, dg.dst)]
@@ -232,7 +235,9 @@ class Relay(W.NetPolicy):
             n = self.count["q"] - 1
             if outs and outs[0][2] == dg.dst and outs[0][0][:3] != proto.RAW_HDR:
                 self.qhist.append((n, dg.serial, outs[0]))
-            for back, newid, flip, otherport, delay in self.redeliver.get(n, self.redeliver.get(str(n), [])):
+            for entry in self.redeliver.get(n, self.redeliver.get(str(n), [])):
+                back, newid, flip, otherport, delay = entry[:5]
+                retype = entry[5] if len(entry) > 5 else 0      # the copy asks the same name with another record type
                 cands = [h for h in self.qhist if h[0] == n - back]
                 if not cands:
                     continue
@@ -245,10 +250,14 @@ class Relay(W.NetPolicy):
                     nd = struct.pack(">H", nid) + nd[2:]
                 if flip:
                     nd = flipcase_qname(nd, self.ndom, int(flip))
+                if retype:
+                    m2 = D.parse(nd)
+                    if not m2.errors and m2.qd and m2.qd[0][1] != retype:
+                        nd = D.build_query(m2.id, m2.qd[0][0], retype, edns=any(r.type == D.T_OPT for r in m2.ar))
                 src2 = (osrc[0], osrc[1] + 1000) if otherport else osrc
                 res.append((self.latency + delay, nd, src2, odst,
                             {"redeliver_of": oserial, "newid": bool(newid), "flip": bool(flip),
-                             "otherport": bool(otherport), "back": back}))
+                             "otherport": bool(otherport), "back": back, "retype": retype}))
         if to_server and self.redeliver_hs:
             n = self.count["q"] - 1
             for kind, delay in self.redeliver_hs.get(n, self.redeliver_hs.get(str(n), [])):
